@@ -24,15 +24,20 @@ def countLt (l : List (List Nat)) (r0 r1 a : Nat) : Nat :=
 def constrain (l : List (List Nat)) (r : Nat × Nat) (into : Nat × Nat) : Nat × Nat :=
   (r.1 + countLt l r.1 r.2 into.1, r.1 + countLt l r.1 r.2 into.2)
 
-/-- `backwards_search`, for a non-empty needle: the last symbol's block, then one `constrain` per
-    preceding symbol; `rangeFor` is `Sigma::sa_range_for` (closed), results are half open -/
+/-- `backwards_search`: the last symbol's block, then one `constrain` per preceding symbol;
+    `rangeFor` is `Sigma::sa_range_for` (closed), results are half open.  The empty needle is
+    "everything except the artificial end marker": the code returns the closed `(1, psi.len() - 1)`,
+    i.e. `[1, l.length)` (rank 0 is the end marker's own suffix) -/
 def backwardSearch (l : List (List Nat)) (rangeFor : Nat → Nat × Nat) : List Nat → Nat × Nat
-  | [] => (0, l.length)
+  | [] => (1, l.length)
   | [t] => ((rangeFor t).1, (rangeFor t).2 + 1)
   | c :: w => constrain l (rangeFor c) (backwardSearch l rangeFor w)
 
 /-- `count` -/
 def count (l : List (List Nat)) (rangeFor : Nat → Nat × Nat) (needle : List Nat) : Nat :=
   (backwardSearch l rangeFor needle).2 - (backwardSearch l rangeFor needle).1
+
+/-- the text position of the `i`-th smallest suffix of a text of length `n` (`sa[i]`) -/
+def saOf (l : List (List Nat)) (n i : Nat) : Nat := n - (str l i).length
 
 end Blue.Csa
